@@ -13,30 +13,86 @@ theorem ite3_ne {ε α} (a b : Prop) [Decidable a] [Decidable b] (e1 e2 : ε) (v
     (if a then Except.error e1 else if b then Except.error e2 else Except.ok (some v)) ≠ Except.ok none := by
   by_cases a <;> by_cases b <;> simp [*]
 
-theorem decodeNumber_na (data off len : Nat) (signed : Bool) (res mn mx ofs : Lit) :
-    decodeNumber data off len signed res mn mx ofs = .ok none ↔
-      naCode len signed =
-        some (if signed then signExtend (Straight.decode_int data off len) len
-              else ((Straight.decode_int data off len : Nat) : Int)) := by
-  simp only [decodeNumber]
-  generalize (if signed = true then signExtend (Straight.decode_int data off len) len
-              else ((Straight.decode_int data off len : Nat) : Int)) = z
-  by_cases h : naCode len signed = some z
-  · rw [if_pos h]; exact ⟨fun _ => h, fun _ => rfl⟩
-  · rw [if_neg h]
-    exact ⟨fun hh => absurd hh (ite3_ne _ _ _ _ _), fun hh => absurd hh h⟩
+/-- the signedness `decode_number` / `encode_number` actually use: a field with an Offset is stored
+excess-K, so its raw count is unsigned whatever the database's Signed flag says -/
+def _root_.N2k.effSigned (signed : Bool) (ofs : Lit) : Bool := if ofs.val = 0 then signed else false
 
 theorem pow10_zero : pow10 0 = 1 := by decide +kernel
 theorem rat_sub_zero (a : Rat) : a - 0 = a := by rw [Rat.sub_eq_add_neg, Rat.neg_zero, Rat.add_zero]
 
+theorem ofInt_val (o : Int) : (Lit.ofInt o).val = (o : Rat) := by
+  simp only [Lit.ofInt, Lit.val, Lit.exact, pow10_zero, Bool.false_eq_true, if_false, Rat.mul_one]
+
+theorem effSigned_zero (signed : Bool) : effSigned signed (Lit.ofInt 0) = signed := by
+  simp only [effSigned, ofInt_val]; rfl
+
+theorem effSigned_of_val_eq_zero (signed : Bool) (ofs : Lit) (h : ofs.val = 0) : effSigned signed ofs = signed := by
+  simp only [effSigned, if_pos h]
+
+theorem effSigned_of_val_ne_zero (signed : Bool) (ofs : Lit) (h : ofs.val ≠ 0) : effSigned signed ofs = false := by
+  simp only [effSigned, if_neg h]
+
+theorem effSigned_unsigned (ofs : Lit) : effSigned false ofs = false := by
+  unfold effSigned; split <;> rfl
+
+/-- `effSigned` is the database flag or `false` -/
+theorem effSigned_le (signed : Bool) (ofs : Lit) (h : effSigned signed ofs = true) : signed = true := by
+  unfold effSigned at h; split at h
+  · exact h
+  · cases h
+
+theorem effSigned_ofInt (signed : Bool) (o : Int) :
+    effSigned signed (Lit.ofInt o) = if o = 0 then signed else false := by
+  simp only [effSigned, ofInt_val]
+  by_cases h : o = 0
+  · subst h; rfl
+  · rw [if_neg h, if_neg]
+    intro h'
+    exact h (Rat.intCast_inj.mp h')
+
+/-- `decodeNumber` with the effective signedness made explicit -/
+theorem decodeNumber_eff (data off len : Nat) (signed : Bool) (res mn mx ofs : Lit) :
+    decodeNumber data off len signed res mn mx ofs =
+      (let s := effSigned signed ofs
+       let n := Straight.decode_int data off len
+       let z : Int := if s then signExtend n len else (n : Int)
+       if naCode len s = some z then .ok none
+       else
+         let v := addLit (mulLit z res) ofs
+         let tol : Rat :=
+           if res.isFloat then
+             maxR (rne (absR res.val / 2)) (rne (rne (absR v.toRat) * relTol))
+           else 0
+         let lo : Rat := if res.isFloat ∨ mn.isFloat then rne (rne mn.val - tol) else mn.val - tol
+         let hi : Rat := if res.isFloat ∨ mx.isFloat then rne (rne mx.val + tol) else mx.val + tol
+         if v.toRat < lo then .error .below
+         else if v.toRat > hi then .error .above
+         else .ok (some v)) := rfl
+
+theorem decodeNumber_na (data off len : Nat) (signed : Bool) (res mn mx ofs : Lit) :
+    decodeNumber data off len signed res mn mx ofs = .ok none ↔
+      naCode len (effSigned signed ofs) =
+        some (if effSigned signed ofs then signExtend (Straight.decode_int data off len) len
+              else ((Straight.decode_int data off len : Nat) : Int)) := by
+  rw [decodeNumber_eff]
+  simp only []
+  generalize effSigned signed ofs = s
+  generalize (if s = true then signExtend (Straight.decode_int data off len) len
+              else ((Straight.decode_int data off len : Nat) : Int)) = z
+  by_cases h : naCode len s = some z
+  · rw [if_pos h]; exact ⟨fun _ => h, fun _ => rfl⟩
+  · rw [if_neg h]
+    exact ⟨fun hh => absurd hh (ite3_ne _ _ _ _ _), fun hh => absurd hh h⟩
+
 theorem decodeNumber_total_int (data off len : Nat) (signed : Bool) (r mn mx o : Int)
-    (z : Int) (hz : z = (if signed then signExtend (Straight.decode_int data off len) len
+    (z : Int) (hz : z = (if effSigned signed (Lit.ofInt o) then signExtend (Straight.decode_int data off len) len
                           else ((Straight.decode_int data off len : Nat) : Int)))
-    (hna : naCode len signed ≠ some z) (h1 : mn ≤ z * r + o) (h2 : z * r + o ≤ mx) :
+    (hna : naCode len (effSigned signed (Lit.ofInt o)) ≠ some z) (h1 : mn ≤ z * r + o) (h2 : z * r + o ≤ mx) :
     decodeNumber data off len signed (Lit.ofInt r) (Lit.ofInt mn) (Lit.ofInt mx) (Lit.ofInt o) = .ok (some (.int (z * r + o))) := by
-  simp only [decodeNumber]
-  rw [← hz]
-  simp only [if_neg hna, Lit.ofInt, mulLit, addLit, Lit.val, Lit.exact, pow10_zero, Bool.false_eq_true, if_false, or_self,
+  rw [decodeNumber_eff]
+  simp only []
+  rw [← hz, if_neg hna]
+  simp only [Lit.ofInt, mulLit, addLit, Lit.val, Lit.exact, pow10_zero, Bool.false_eq_true, if_false, or_self,
     Num.toRat, Rat.mul_one, Rat.add_zero, rat_sub_zero, gt_iff_lt, Rat.intCast_lt_intCast]
   rw [if_neg (by omega), if_neg (by omega)]
 
